@@ -93,10 +93,8 @@ def describe(cls, is_part, all_vocab, part_instances):
     def required(name):
         kw = {k: v for k, v in full.items() if k != name}
         o, e = try_build(cls, kw)
-        if o is None and e == "type":
-            return True
         if o is None:
-            raise GenError("%s without %s: unexpected %s" % (cls.__name__, name, e))
+            return True     # missing keyword, or its default is rejected by the field's check
         return False
 
     probes = []
